@@ -10,6 +10,8 @@
 // synctest bubble positioned after the prefix. A 200 answer is probed with further
 // real requests (userinfo, introspection, refresh, ID-token verification by the
 // library's rp and op verifiers) and compared with the reference policy model below.
+// Part "exchange": one request per vector on a long-lived provider per worker.
+// Part "pairs" (pairs_test.go): histories of two exchanges on a FRESH provider.
 package c15
 
 import (
@@ -40,21 +42,62 @@ func TestMain(m *testing.M) { engine.Main(m) }
 var typeNames = map[string]string{"access": ttAccess, "refresh": ttRefresh, "id": ttID, "jwt": ttJWT, "unknown": ttUnknown, "none": ""}
 
 var space = engine.Space{
-	engine.D("subj", "jwt-at", "opaque-at", "rt", "rt-web", "idt", "idt-web", "expired-jwt-at", "expired-opaque-at", "expired-rt",
-		"expired-idt", "revoked-jwt-at", "revoked-opaque-at", "revoked-rt", "jwt-at-of-revoked-rt", "forged-key", "foreign-iss",
-		"forged-sub", "garbage", "sealed-unknown", "sealed-3part", "ext", "missing"),
+	engine.D("subj", "jwt-at", "opaque-at", "rt", "rt-web", "idt", "idt-web", "jwt-at-b", "idt-b", "expired-jwt-at", "expired-opaque-at", "expired-rt",
+		"expired-idt", "revoked-jwt-at", "revoked-opaque-at", "revoked-rt", "jwt-at-of-revoked-rt", "terminated-at", "terminated-rt", "idt-terminated",
+		"forged-key", "foreign-iss", "forged-sub", "garbage", "sealed-unknown", "sealed-3part", "sealed-1part", "ext", "missing"),
 	// auto = the type the subject token really has (access_token for strings that are nothing)
 	engine.D("declared", "auto", "access", "refresh", "id", "jwt", "unknown", "none"),
-	engine.D("actor", "none", "jwt-at", "opaque-at", "rt", "idt", "expired-jwt-at", "revoked-jwt-at", "garbage", "ext", "forged-key"),
+	engine.D("actor", "none", "jwt-at", "opaque-at", "rt", "idt", "jwt-at-b", "expired-jwt-at", "expired-opaque-at", "expired-rt", "expired-idt",
+		"revoked-jwt-at", "revoked-rt", "terminated-at", "garbage", "foreign-iss", "sealed-3part", "ext", "forged-key"),
 	// auto = the actor token's real type when an actor token is sent, no parameter otherwise
 	engine.D("atype", "auto", "access", "refresh", "id", "jwt", "unknown", "none"),
 	engine.D("requested", "access", "none", "refresh", "id", "jwt", "unknown"),
 	engine.D("scopes", "openid", "", "openid profile", "profile", "openid profile email", "openid imp:u2", "openid custom x"),
 	engine.D("policy", "default", "nodefault", "veto", "drop-profile", "imp", "imp-drop", "def-refresh", "def-id", "def-jwt"),
 	engine.D("audres", "none", "aud-api", "aud-api-other", "res", "aud-res"),
-	engine.D("client", "webjwt", "web", "wrong-secret", "no-grant", "unknown", "none", "body-ok", "body-wrong", "bad-escape"),
+	// how the caller presents credentials (see auths)
+	engine.D("auth", "webjwt", "web", "post", "assertion", "no-grant", "wrong-secret", "unknown", "none", "post-wrong", "bad-escape", "assertion-forged"),
+	// form parameter client_id: auto = what the credential kind needs (the client's id for a POSTed secret, nothing otherwise)
+	engine.D("formcid", "auto", "absent", "own", "other", "unknown", "dup", "dup-rev"),
 	engine.D("caps", "all", "no-tv", "no-te"),
+	// where the parameters travel: all in the body / grant_type in the URL query / everything in the URL query
+	engine.D("chan", "body", "gt-query", "query"),
+	// virtual host the request is addressed to (issuer = https://<host>)
+	engine.D("host", "a", "b"),
 	engine.D("router", rig.Routers...),
+}
+
+// authSpec: one way of presenting client credentials.
+type authSpec struct {
+	self                 string // the client the credentials are (meant to be) of; "own" form client_id
+	basicID, basicSecret string // Authorization: Basic
+	raw                  bool   // Basic credentials sent without form-urlencoding
+	formSecret           string // client_secret form parameter
+	post                 bool   // identity travels in the form (client_id)
+	assertion            int    // 0 none, 1 valid private_key_jwt assertion of client jwt, 2 same payload signed by a foreign key
+}
+
+var auths = map[string]authSpec{
+	"webjwt":           {self: "webjwt", basicID: "webjwt", basicSecret: "secret-webjwt"},
+	"web":              {self: "web", basicID: "web", basicSecret: "secret-web"},
+	"post":             {self: "web", formSecret: "secret-web", post: true},
+	"assertion":        {self: "jwt", assertion: 1},
+	"no-grant":         {self: "norefresh", basicID: "norefresh", basicSecret: "secret-norefresh"}, // authenticated, not registered for the grant
+	"wrong-secret":     {self: "webjwt", basicID: "webjwt", basicSecret: "secret-web"},             // another client's secret
+	"unknown":          {self: "ghost", basicID: "ghost", basicSecret: "secret-ghost"},
+	"none":             {self: "web"},
+	"post-wrong":       {self: "web", formSecret: "secret-webjwt", post: true}, // another client's secret
+	"bad-escape":       {self: "web", basicID: "web%zz", basicSecret: "secret-web", raw: true},
+	"assertion-forged": {self: "jwt", assertion: 2},
+}
+
+var registered = rig.DefaultConfig().Clients
+
+func otherClient(self string) string {
+	if self == "webjwt" {
+		return "web"
+	}
+	return "webjwt"
 }
 
 var policies = map[string]refstore.ExchangePolicy{
@@ -72,23 +115,28 @@ var policies = map[string]refstore.ExchangePolicy{
 var capsOf = map[string]refstore.Caps{"all": refstore.CapAll, "no-tv": refstore.CapAll &^ refstore.CapTV, "no-te": refstore.CapAll &^ (refstore.CapTE | refstore.CapTV)}
 
 type input struct {
-	subj, act         *tok
-	declared, atype   string // URNs as sent ("" = parameter absent)
-	atypeGiven        bool
-	requested         string
-	scopes            []string
-	policy            refstore.ExchangePolicy
-	policyName        string
-	aud, res          []string
-	client            string // alphabet name
-	clientID          string // client the request claims to be ("" none)
-	caps              string
-	router            int
+	subj, act       *tok
+	declared, atype string // URNs as sent ("" = parameter absent)
+	atypeGiven      bool
+	requested       string
+	scopes          []string
+	policy          refstore.ExchangePolicy
+	policyName      string
+	aud, res        []string
+	auth            string // alphabet name
+	spec            authSpec
+	formIDs         []string // client_id form values
+	clientID        string   // the client a valid credential was presented for ("" none)
+	dupIDs          bool
+	caps            string
+	channel         string
+	host            int
+	router          int
 }
 
-func (w *world) decode(v engine.Vec) *input {
-	g := func(n string) string { return space.Get(v, n) }
-	in := &input{subj: w.sub[g("subj")], act: w.act[g("actor")], client: g("client"), caps: g("caps"), policyName: g("policy")}
+// decode builds the request description from named alphabet values (g returns the value of a dimension).
+func (w *world) decode(g func(string) string) *input {
+	in := &input{subj: w.sub[g("subj")], act: w.act[g("actor")], auth: g("auth"), caps: g("caps"), policyName: g("policy"), channel: g("chan")}
 	in.policy = policies[in.policyName]
 	auto := func(tk *tok) string {
 		if tk.typ != "" {
@@ -121,20 +169,50 @@ func (w *world) decode(v engine.Vec) *input {
 	case "aud-res":
 		in.aud, in.res = []string{"api"}, []string{"https://rs.example/a"}
 	}
-	switch in.client {
-	case "webjwt", "web":
-		in.clientID = in.client
-	case "wrong-secret":
-		in.clientID = "webjwt"
-	case "no-grant":
-		in.clientID = "norefresh"
+	in.spec = auths[in.auth]
+	self, other := in.spec.self, otherClient(in.spec.self)
+	switch g("formcid") {
+	case "auto":
+		if in.spec.post {
+			in.formIDs = []string{self}
+		}
+	case "own":
+		in.formIDs = []string{self}
+	case "other":
+		in.formIDs = []string{other}
 	case "unknown":
-		in.clientID = "ghost"
-	case "body-ok", "body-wrong", "bad-escape":
-		in.clientID = "web"
+		in.formIDs = []string{"ghost2"}
+	case "dup":
+		in.formIDs, in.dupIDs = []string{self, other}, true
+	case "dup-rev":
+		in.formIDs, in.dupIDs = []string{other, self}, true
 	}
+	// the client a VALID credential is presented for: the statement's "authenticated client"
+	good := func(id, secret string) bool { cl := registered[id]; return cl != nil && cl.Secret != "" && cl.Secret == secret }
+	switch {
+	case in.spec.assertion == 1:
+		in.clientID = "jwt"
+	case in.spec.basicID != "":
+		if !in.spec.raw && good(in.spec.basicID, in.spec.basicSecret) {
+			in.clientID = in.spec.basicID
+		}
+	case in.spec.post:
+		for _, id := range in.formIDs {
+			if good(id, in.spec.formSecret) {
+				in.clientID = id // at most one: the two ids of a dup have different secrets
+			}
+		}
+	}
+	in.host = slices.Index(space[space.Idx("host")].Vals, g("host"))
 	in.router = slices.Index(rig.Routers, g("router"))
 	return in
+}
+
+// redundant reports alphabet combinations that spell a request already spelled otherwise.
+func redundant(g func(string) string) bool {
+	post := auths[g("auth")].post
+	f := g("formcid")
+	return (post && f == "own") || (!post && f == "absent")
 }
 
 // ---------------------------------------------------------------------------
@@ -156,9 +234,10 @@ type expectation struct {
 	eff     string // effective requested type
 }
 
-// judgeToken: is tk, declared as typ, "a live token of the declared supported type"?
-// Returns mustServe (yes), mustRefuse (no) or either (the statement does not say).
-func judgeToken(tk *tok, typ string, tv bool) (int, string) {
+// judgeToken: is tk, declared as typ and presented under virtual host `host`, "a live token
+// of the declared supported type"? Returns mustServe (yes), mustRefuse (no) or either (the
+// statement does not say).
+func judgeToken(tk *tok, typ string, tv bool, host int) (int, string) {
 	switch {
 	case tk.state == "missing":
 		return mustRefuse, "missing"
@@ -168,9 +247,14 @@ func judgeToken(tk *tok, typ string, tv bool) (int, string) {
 		return mustRefuse, "type-unsupported"
 	}
 	jwtType := typ == ttAccess || typ == ttID || typ == ttJWT
-	switch tk.state {
-	case "bogus":
+	if tk.state == "bogus" {
 		return mustRefuse, "bogus"
+	}
+	if tk.jwt && tk.host != host {
+		// a JWT names its issuer: under another virtual host it is a token of another issuer
+		return mustRefuse, "other-issuer"
+	}
+	switch tk.state {
 	case "expired":
 		return mustRefuse, "dead"
 	case "revoked":
@@ -195,6 +279,14 @@ func judgeToken(tk *tok, typ string, tv bool) (int, string) {
 	}
 	// live, genuine
 	if typ == tk.typ {
+		if tk.soft != "" {
+			return either, tk.soft
+		}
+		if tk.host != host {
+			// opaque access tokens and refresh tokens name no issuer; whether a token handed out
+			// under one virtual host is good under another one of the same storage is not decided
+			return either, "unbound-token-of-other-host"
+		}
 		return mustServe, ""
 	}
 	if tk.jwt && jwtType {
@@ -214,21 +306,34 @@ func judge(in *input) *expectation {
 		return e
 	}
 	var soft []string
-	// "an authenticated client"
-	switch in.client {
-	case "wrong-secret", "unknown", "none", "body-wrong", "bad-escape":
+	// "an authenticated client": a valid credential was presented for in.clientID (decode)
+	if in.clientID == "" {
 		return refuse("client-unauthenticated")
-	case "body-ok":
+	}
+	// ... acting through a grant registered for it (DESIGN 2/C15 alphabet "no exchange grant"; C05)
+	if !slices.Contains(registered[in.clientID].Grants, oidc.GrantTypeTokenExchange) {
+		return refuse("client-without-grant")
+	}
+	switch {
+	case in.spec.post:
 		soft = append(soft, "client-secret-in-body") // DESIGN 1.6 (C05): channel of a correct secret
-	case "no-grant":
-		soft = append(soft, "client-without-grant") // authenticated; grant registration is C05's subject
+	case in.spec.assertion == 1:
+		soft = append(soft, "client-assertion") // whether the exchange endpoint takes private_key_jwt is the provider's choice
+	}
+	switch {
+	case in.dupIDs:
+		soft = append(soft, "client-id-twice")
+	case len(in.formIDs) > 0 && !in.spec.post:
+		// a client_id parameter beside header / assertion credentials: ignoring it and refusing the
+		// request are both fine - acting for the named instead of the authenticated client is not
+		soft = append(soft, "client-id-beside-credentials")
 	}
 	if in.caps == "no-te" {
 		return refuse("no-exchange-storage")
 	}
 	tv := in.caps == "all"
 	// "presents a live subject token ... of the declared supported type"
-	k, why := judgeToken(in.subj, in.declared, tv)
+	k, why := judgeToken(in.subj, in.declared, tv, in.host)
 	switch k {
 	case mustRefuse:
 		return refuse("subject-" + why)
@@ -240,7 +345,7 @@ func judge(in *input) *expectation {
 	}
 	// "and, if given, a live actor token"
 	if in.act.state != "missing" {
-		k, why = judgeToken(in.act, in.atype, tv)
+		k, why = judgeToken(in.act, in.atype, tv, in.host)
 		switch k {
 		case mustRefuse:
 			return refuse("actor-" + why)
@@ -285,6 +390,11 @@ func judge(in *input) *expectation {
 	if in.act.state != "missing" {
 		e.class += "+actor"
 	}
+	if in.channel != "body" {
+		// RFC 6749 puts the parameters into the body; a provider may refuse them in the URL.
+		// What must be refused in the body must be refused here too (all rules above).
+		soft = append(soft, "parameters-in-query")
+	}
 	if len(soft) > 0 {
 		e.kind, e.rule = either, "either:"+soft[0]
 		return e
@@ -297,16 +407,16 @@ func judge(in *input) *expectation {
 // execution
 
 type worker struct {
-	w    *world
-	t    *testing.T
-	rigs map[string]*rig.Rig
+	w     *world
+	t     *testing.T
+	rigs  map[string]*rig.Rig
+	fresh map[string]string // pairs part: outcome of a request as the first one of a history
 }
 
 func newWorker(t *testing.T, w *world) *worker {
 	k := &worker{w: w, t: t, rigs: map[string]*rig.Rig{}}
 	for name, caps := range capsOf {
-		caps := caps
-		k.rigs[name] = rig.MustNew(rig.Opts{Caps: &caps})
+		k.rigs[name] = newRig(caps)
 	}
 	return k
 }
@@ -335,22 +445,25 @@ func typeShort(t string) string {
 }
 
 func (k *worker) run(v engine.Vec) engine.Result {
-	in := k.w.decode(v)
+	in := k.w.decode(func(n string) string { return space.Get(v, n) })
 	exp := judge(in)
 	var res engine.Result
-	if pan := engine.Bubble(k.t, caseAt, func() { res = k.exec(in, exp) }); pan != "" {
+	if pan := engine.Bubble(k.t, caseAt, func() {
+		r := k.rigs[in.caps]
+		r.Core.Cfg.Exchange = in.policy
+		r.Core.Reset(k.w.st.Clone())
+		res = k.evaluate(r, in, exp, k.request(r, in))
+	}); pan != "" {
 		k.w.c.Internal("harness panic: " + pan)
 		return engine.OK("internal", "harness-panic")
 	}
 	return res
 }
 
-func (k *worker) exec(in *input, exp *expectation) engine.Result {
-	r := k.rigs[in.caps]
-	r.Core.Cfg.Exchange = in.policy
-	r.Core.Reset(k.w.st.Clone())
-	router := rig.Routers[in.router]
+const assertionType = "urn:ietf:params:oauth:client-assertion-type:jwt-bearer"
 
+// request sends the token-exchange request described by in to r.
+func (k *worker) request(r *rig.Rig, in *input) *rig.Resp {
 	form := url.Values{"grant_type": {teGrant}}
 	if in.subj.state != "missing" {
 		form.Set("subject_token", in.subj.str)
@@ -376,27 +489,36 @@ func (k *worker) exec(in *input, exp *expectation) engine.Result {
 	for _, a := range in.res {
 		form.Add("resource", a)
 	}
-	auth := ""
-	switch in.client {
-	case "webjwt", "web":
-		auth = rig.Basic(in.clientID, secretOf(in.clientID))
-	case "wrong-secret":
-		auth = rig.Basic("webjwt", "secret-web") // another client's secret
-	case "no-grant":
-		auth = rig.Basic("norefresh", secretOf("norefresh"))
-	case "unknown":
-		auth = rig.Basic("ghost", "secret-ghost")
-	case "body-ok":
-		form.Set("client_id", "web")
-		form.Set("client_secret", secretOf("web"))
-	case "body-wrong":
-		form.Set("client_id", "web")
-		form.Set("client_secret", "secret-webjwt")
-	case "bad-escape":
-		auth = rig.BasicRaw("web%zz", secretOf("web")) // Basic credentials that are not form-urlencoded
+	hdr := map[string]string{}
+	switch sp := in.spec; {
+	case sp.raw:
+		hdr["Authorization"] = rig.BasicRaw(sp.basicID, sp.basicSecret) // Basic credentials that are not form-urlencoded
+	case sp.basicID != "":
+		hdr["Authorization"] = rig.Basic(sp.basicID, sp.basicSecret)
+	case sp.formSecret != "":
+		form.Set("client_secret", sp.formSecret)
+	case sp.assertion != 0:
+		form.Set("client_assertion_type", assertionType)
+		form.Set("client_assertion", map[int]string{1: k.w.assertion, 2: k.w.assertionForged}[sp.assertion])
 	}
-	resp := r.Token(in.router, form, auth)
+	for _, id := range in.formIDs {
+		form.Add("client_id", id)
+	}
+	target := "/oauth/token"
+	switch in.channel {
+	case "gt-query":
+		target += "?" + url.Values{"grant_type": form["grant_type"]}.Encode()
+		form.Del("grant_type")
+	case "query":
+		target += "?" + form.Encode()
+		form = url.Values{}
+	}
+	return r.Do(in.router, hreq(in.host, "POST", target, form, hdr))
+}
 
+// evaluate judges the answer to in (200 answers are probed with further requests to r).
+func (k *worker) evaluate(r *rig.Rig, in *input, exp *expectation, resp *rig.Resp) engine.Result {
+	router := rig.Routers[in.router]
 	body := resp.JSON()
 	served := resp.Panic == "" && resp.Status == 200
 	var outcome string
@@ -418,12 +540,13 @@ func (k *worker) exec(in *input, exp *expectation) engine.Result {
 		}
 		outcome = "error:" + code
 	}
+	how := fmt.Sprintf("credentials %s, form client_id %q, parameters %s, host %s", in.auth, in.formIDs, in.channel, hosts[in.host])
 
 	switch exp.kind {
 	case mustRefuse:
 		if served {
 			return engine.Bad(exp.rule, outcome, fmt.Sprintf("C15/served-invalid/%s/%s", router, exp.class),
-				fmt.Sprintf("request that must be refused (%s) answered 200: %s", exp.class, short(resp.Body)))
+				fmt.Sprintf("request that must be refused (%s; %s) answered 200: %s", exp.class, how, short(resp.Body)))
 		}
 		return engine.OK(exp.rule, outcome)
 	case mustServe:
@@ -433,7 +556,7 @@ func (k *worker) exec(in *input, exp *expectation) engine.Result {
 				class = "opaque-access-token"
 			}
 			return engine.Bad(exp.rule, outcome, fmt.Sprintf("C15/not-served/%s/%s", router, class),
-				fmt.Sprintf("authenticated client, live subject (%s as %s), actor %s, requested %s: %s %d %s", in.subj.kind, typeShort(in.declared),
+				fmt.Sprintf("authenticated client (%s), live subject (%s as %s), actor %s, requested %s: %s %d %s", how, in.subj.kind, typeShort(in.declared),
 					in.act.kind, typeShort(exp.eff), firstLine(resp.Panic), resp.Status, short(resp.Body)))
 		}
 	default:
@@ -442,7 +565,7 @@ func (k *worker) exec(in *input, exp *expectation) engine.Result {
 		}
 	}
 	if what, detail := k.probe(r, in, exp, body); what != "" {
-		return engine.Bad(exp.rule, outcome+":"+what, fmt.Sprintf("C15/bad-response/%s/%s", router, what), detail+" | response: "+short(resp.Body))
+		return engine.Bad(exp.rule, outcome+":"+what, fmt.Sprintf("C15/bad-response/%s/%s", router, what), detail+" | "+how+" | response: "+short(resp.Body))
 	}
 	return engine.OK(exp.rule, outcome)
 }
@@ -482,10 +605,18 @@ func (k *worker) probe(r *rig.Rig, in *input, exp *expectation, body map[string]
 	}
 	hasProfile := slices.Contains(exp.scopes, "profile") && knownUser(exp.subject)
 	hasOpenID := slices.Contains(exp.scopes, "openid")
-	clientSecret := secretOf(in.clientID)
+	// credentials of the authenticated client for follow-up requests
+	clientAuth := func(form url.Values) map[string]string {
+		if registered[in.clientID].Method == oidc.AuthMethodPrivateKeyJWT {
+			form.Set("client_assertion_type", assertionType)
+			form.Set("client_assertion", k.w.assertion)
+			return nil
+		}
+		return map[string]string{"Authorization": rig.Basic(in.clientID, secretOf(in.clientID))}
+	}
 
 	checkAccess := func(at, label string) (string, string) {
-		ui := r.Do(in.router, rig.Req("GET", "/userinfo", nil, map[string]string{"Authorization": "Bearer " + at}))
+		ui := r.Do(in.router, hreq(in.host, "GET", "/userinfo", nil, map[string]string{"Authorization": "Bearer " + at}))
 		if ui.Status != 200 || ui.Panic != "" {
 			return label + "-not-live", fmt.Sprintf("userinfo with the issued token: %d %s %s", ui.Status, short(ui.Body), firstLine(ui.Panic))
 		}
@@ -512,9 +643,18 @@ func (k *worker) probe(r *rig.Rig, in *input, exp *expectation, body map[string]
 			return label + "-actor", fmt.Sprintf("stored actor %q, expected %q", rec.Actor, exp.actor)
 		}
 		if rec.ClientID != in.clientID {
-			return label + "-client", fmt.Sprintf("stored client %q, requester %q", rec.ClientID, in.clientID)
+			return label + "-client", fmt.Sprintf("token stored for client %q, authenticated client %q", rec.ClientID, in.clientID)
+		}
+		if isJWT(at) != (registered[in.clientID].ATType == op.AccessTokenTypeJWT) {
+			return label + "-client", fmt.Sprintf("access token format (JWT=%v) is not the one registered for the authenticated client %q", isJWT(at), in.clientID)
 		}
 		if m := jwtPayload(at); m != nil {
+			if iss, _ := m["iss"].(string); iss != issuerOf(in.host) {
+				return label + "-issuer", fmt.Sprintf("JWT access token names issuer %q, request was served as %q", iss, issuerOf(in.host))
+			}
+			if cid, _ := m["client_id"].(string); cid != "" && cid != in.clientID {
+				return label + "-client", fmt.Sprintf("JWT access token client_id %q, authenticated client %q", cid, in.clientID)
+			}
 			if act, ok := m["act"].(map[string]any); ok {
 				if s, _ := act["sub"].(string); s != exp.actor {
 					return label + "-actor", fmt.Sprintf("act.sub %q, expected %q", s, exp.actor)
@@ -522,7 +662,7 @@ func (k *worker) probe(r *rig.Rig, in *input, exp *expectation, body map[string]
 			}
 		}
 		if slices.Contains(in.aud, "api") {
-			ir := r.Do(in.router, rig.Req("POST", "/oauth/introspect", url.Values{"token": {at}}, map[string]string{"Authorization": rig.Basic("api", secretOf("api"))}))
+			ir := r.Do(in.router, hreq(in.host, "POST", "/oauth/introspect", url.Values{"token": {at}}, map[string]string{"Authorization": rig.Basic("api", secretOf("api"))}))
 			m := ir.JSON()
 			if active, _ := m["active"].(bool); ir.Status != 200 || !active {
 				return label + "-not-live", fmt.Sprintf("introspection by the audience member: %d %s", ir.Status, short(ir.Body))
@@ -556,12 +696,13 @@ func (k *worker) probe(r *rig.Rig, in *input, exp *expectation, body map[string]
 			return "refresh-content", fmt.Sprintf("stored refresh token: sub %q scopes %q client %q; expected %q %q %q", rec.Subject, rec.Scopes, rec.ClientID, exp.subject, exp.scopes, in.clientID)
 		}
 		if cl := r.Core.Cfg.Clients[in.clientID]; cl != nil && slices.Contains(cl.Grants, oidc.GrantTypeRefreshToken) {
-			rr := r.Token(in.router, url.Values{"grant_type": {"refresh_token"}, "refresh_token": {rt}}, rig.Basic(in.clientID, clientSecret))
+			rform := url.Values{"grant_type": {"refresh_token"}, "refresh_token": {rt}}
+			rr := r.Do(in.router, hreq(in.host, "POST", "/oauth/token", rform, clientAuth(rform)))
 			nat := rr.Str("access_token")
 			if rr.Status != 200 || rr.Panic != "" || nat == "" {
 				return "refresh-not-live", fmt.Sprintf("redeeming the issued refresh token: %d %s %s", rr.Status, short(rr.Body), firstLine(rr.Panic))
 			}
-			ui := r.Do(in.router, rig.Req("GET", "/userinfo", nil, map[string]string{"Authorization": "Bearer " + nat}))
+			ui := r.Do(in.router, hreq(in.host, "GET", "/userinfo", nil, map[string]string{"Authorization": "Bearer " + nat}))
 			if sub, _ := ui.JSON()["sub"].(string); ui.Status != 200 || (hasOpenID && sub != exp.subject) {
 				return "refresh-content", fmt.Sprintf("userinfo after refresh: %d %s, expected sub %q", ui.Status, short(ui.Body), exp.subject)
 			}
@@ -569,11 +710,11 @@ func (k *worker) probe(r *rig.Rig, in *input, exp *expectation, body map[string]
 		return "", ""
 	case ttID:
 		ctx := context.Background()
-		claims, err := rp.VerifyIDToken[*oidc.IDTokenClaims](ctx, token, rp.NewIDTokenVerifier(rig.Issuer, in.clientID, provPub))
+		claims, err := rp.VerifyIDToken[*oidc.IDTokenClaims](ctx, token, rp.NewIDTokenVerifier(issuerOf(in.host), in.clientID, provPub))
 		if err != nil {
 			return "id-token-invalid", "rp.VerifyIDToken: " + err.Error()
 		}
-		if _, err := op.VerifyIDTokenHint[*oidc.IDTokenClaims](ctx, token, op.NewIDTokenHintVerifier(rig.Issuer, provPub)); err != nil {
+		if _, err := op.VerifyIDTokenHint[*oidc.IDTokenClaims](ctx, token, op.NewIDTokenHintVerifier(issuerOf(in.host), provPub)); err != nil {
 			return "id-token-invalid", "op.VerifyIDTokenHint: " + err.Error()
 		}
 		if claims.Subject != exp.subject {
